@@ -25,9 +25,22 @@ def _setup():
 
 
 # ---------------------------------------------------------------- rendering
-def render_cond(c, elif_=False, style=0):
+# Function-like renderings of the value conditions (case flag fn): the same condition in C, spelled
+# through helper macros given on the command line - a direct call, a call through an object-like alias
+# of the function-like macro (the '(' is outside the alias's replacement) and an identity wrapper.
+HELPERS = ["EQ__(a,b)=((a) == (b))", "GT__(a,b)=((a) > (b))", "ID__(x)=x", "EQA__=EQ__", "GTA__=GT__", "IDA__=ID__"]
+
+
+def render_cond(c, elif_=False, style=0, fn=False):
     k = c[0]
     kw = "#elif" if elif_ else "#if"
+    if fn and k in ("Val", "Eq", "Gt"):
+        v = style % 4
+        if k == "Val":
+            return [f"{kw} ID__({c[1]})", f"{kw} IDA__({c[1]})", f"{kw} ID__(IDA__({c[1]}))", f"{kw} {c[1]}"][v]
+        f, op = ("EQ", "==") if k == "Eq" else ("GT", ">")
+        return [f"{kw} {f}__({c[1]}, {c[2]})", f"{kw} {f}A__({c[1]}, {c[2]})", f"{kw} ID__({c[1]}) {op} {c[2]}",
+                f"{kw} {f}A__(IDA__({c[1]}), {c[2]})"][v]
     if k == "Defd":
         if not elif_ and style % 3 == 0:
             return f"#ifdef {c[1]}"
@@ -49,7 +62,7 @@ def render_cond(c, elif_=False, style=0):
     raise ValueError(c)
 
 
-def render(lines, style=0):
+def render(lines, style=0, fn=False):
     """Returns (text, node_lines) where node_lines[i] = physical line numbers of node i."""
     out = []
     node_lines = []
@@ -68,9 +81,9 @@ def render(lines, style=0):
         elif k == "Other":
             out.append("#pragma unroll")
         elif k == "If":
-            out.append(render_cond(l[1], False, style + i))
+            out.append(render_cond(l[1], False, style + i, fn))
         elif k == "Elif":
-            out.append(render_cond(l[1], True, style + i))
+            out.append(render_cond(l[1], True, style + i, fn))
         elif k == "Else":
             out.append("#else")
         elif k == "Endif":
@@ -376,6 +389,13 @@ CORPUS_EXTRA = [
     # alias cycle and self-reference: the name survives expansion and counts as 0
     [[["Def", "V0", ["R", "V1"]], ["Def", "V1", ["R", "V0"]], ["If", ["Val", "V0"]], ["Code"], ["Else"], ["Code"], ["Endif"],
       ["Def", "V2", ["R", "V2"]], ["If", ["Eq", "V2", 0]], ["Code"], ["Endif"]], []],
+    # value conditions spelled through function-like helper macros and through object-like aliases of them
+    # (four consecutive chains: each of the four spellings of Eq / Gt / Val occurs)
+    [[["If", ["Eq", "V0", 2]], ["Code"], ["Else"], ["Code"], ["Endif"]] * 4, [["V0", 2]], 1],
+    [[["If", ["Gt", "V0", 1]], ["Code"], ["Else"], ["Code"], ["Endif"]] * 4, [["V0", 2]], 1],
+    [[["Code"], ["If", ["Val", "V1"]], ["Code"], ["Elif", ["Eq", "V0", 1]], ["Code"], ["Else"], ["Code"], ["Endif"]] * 4, [["V0", 1], ["V1", 0]], 1],
+    [[["Def", "V1", ["R", "V0"]], ["If", ["Eq", "V1", 2]], ["Code"], ["Else"], ["Code"], ["Endif"], ["Code"]] * 2
+     + [["If", ["Gt", "V1", 0]], ["Code"], ["Endif"]], [["V0", 2]], 1],
 ]
 
 MALFORMED = [
@@ -393,7 +413,7 @@ MALFORMED = [
 class C01(Check):
     prop_id = "C01"
     rule = ("structured programs of nested #if/#ifdef/#ifndef/#elif/#else/#endif chains (depth <= 6), object-like "
-            "#define/#undef, code lines, x random -D assignments (undefined/empty/0/1/2); exhaustive block: every "
+            "#define/#undef, code lines, x random -D assignments (undefined/empty/0/1/2); in 35 % of the random programs the value conditions are spelled through function-like helper macros given with -D (EQ__(V,k), an object-like alias EQA__(V,k), ID__(V) == k); exhaustive block: every "
             "structured program up to a line bound over 6 plain lines x 4 conditions x 5 define sets; plus a malformed "
             "stream (error class only). Non-trivial = at least one conditional chain AND at least one node skipped AND one node inside a chain used")
     assumptions = ["directive recognition / line counting of FileParser is C05's subject; here every node is one directive or a block of code lines",
@@ -412,7 +432,11 @@ class C01(Check):
             lines = normalise(gen_items(self.rng, 0, 60))
             if self.rng.random() < 0.3:
                 lines = normalise(inject_alias(self.rng, lines))
-            out.append([lines, gen_env(self.rng)])
+            case = [lines, gen_env(self.rng)]
+            if self.rng.random() < 0.35:
+                case.append(1)                      # value conditions spelled through function-like helper macros
+                self.hist["fn_rendered"] = self.hist.get("fn_rendered", 0) + 1
+            out.append(case)
         bound = 4 if self.tier == "quick" else 6
         for k in range(1, bound + 1):
             progs = enum_blocks(k)
@@ -431,7 +455,7 @@ class C01(Check):
         return out
 
     def encode(self, case):
-        lines, env = case
+        lines, env = case[:2]
 
         def ec(c):
             return [c[0]] + list(c[1:])
@@ -446,16 +470,19 @@ class C01(Check):
         _setup()
         import codebasin
         from codebasin import finder, platform as cbplatform, preprocessor
-        lines, env = case
+        lines, env = case[:2]
+        fn = len(case) > 2 and bool(case[2])
         root = common.scratch() / "c01"
         if root.exists():
             shutil.rmtree(root)
         root.mkdir(parents=True)
-        text, node_lines = render(lines, style=len(lines))
+        text, node_lines = render(lines, style=len(lines), fn=fn)
         f = root / "main.c"
         f.write_text(text)
         defines = [m if v == 1 and (len(m) + len(lines)) % 2 else
                    (f"{m}=" if v == "E" else (f"{m}={v[1]}" if isinstance(v, list) else f"{m}={v}")) for m, v in env]
+        if fn:
+            defines = defines + HELPERS
         created = []
 
         class Capturing(cbplatform.Platform):
@@ -482,6 +509,8 @@ class C01(Check):
             return ["Err", "NodeShapeMismatch", shape, node_lines]
         envd = []
         for name, mac in created[-1]._definitions.items():
+            if name.endswith("__"):
+                continue                            # the rendering's helper macros are not part of the program
             s = " ".join(str(t) for t in mac.replacement)
             envd.append([name, "E" if s == "" else (int(s) if s.lstrip("-").isdigit() else ["R", s])])
         return ["Ok", marks, sorted(envd)]
@@ -532,10 +561,13 @@ class C01(Check):
         return has_chain and skipped and inside_used
 
     def shrink(self, case, still_fails):
-        lines, env = case
-        lines2 = shrink_structured(lines, lambda ls: still_fails([ls, env]))
-        env2 = common.shrink_list(env, lambda e: still_fails([lines2, e]))
-        return [lines2, env2]
+        lines, env = case[:2]
+        rest = list(case[2:])
+        lines2 = shrink_structured(lines, lambda ls: still_fails([ls, env] + rest))
+        env2 = common.shrink_list(env, lambda e: still_fails([lines2, e] + rest))
+        if rest and still_fails([lines2, env2]):
+            rest = []
+        return [lines2, env2] + rest
 
     # ---- S versus gcc (thorough tier, and a small sample in quick) ----
     def self_tests(self):
@@ -549,16 +581,17 @@ class C01(Check):
             ls = normalise(gen_items(rng, 0, 40))
             if rng.random() < 0.4:
                 ls = normalise(inject_alias(rng, ls))
-            cases.append([ls, gen_env(rng)])
+            cases.append([ls, gen_env(rng)] + ([1] if rng.random() < 0.5 else []))
         answers = common.run_model("C01", [self.encode(c) for c in cases])
         d = common.scratch() / "gcc"
         d.mkdir(exist_ok=True)
         for c, a in zip(cases, answers):
-            lines, env = c
+            lines, env = c[:2]
+            fn = len(c) > 2
             sa = self._view(a[1])
-            text, node_lines = render(lines, style=len(lines))
+            text, node_lines = render(lines, style=len(lines), fn=fn)
             (d / "t.c").write_text(text)
-            args = ["gcc", "-E", "-P", "-undef", "-nostdinc"]
+            args = ["gcc", "-E", "-P", "-undef", "-nostdinc"] + (["-D" + h for h in HELPERS] if fn else [])
             for m, v in env:
                 args.append(f"-D{m}=" + ("" if v == "E" else str(v)))
             p = subprocess.run(args + ["t.c"], cwd=d, capture_output=True, text=True)
